@@ -100,6 +100,7 @@ type Exec struct {
 	Points  []PointRec
 	Steps   int
 	Outcome string // "" (completed), "deadlock", "livelock", "crash", "panic: ..."
+	Leaked  int    // threads still parked for good when the scenario body had returned (not an outcome)
 	Stack   string
 	bounds  Bounds
 	killed  bool
@@ -293,6 +294,22 @@ func (x *Exec) reschedule(t *thread) {
 				}
 			}
 			x.tracef("  DEADLOCK:%s", sb.String())
+		}
+		// the scenario body (thread 0) has returned and what is left can never run again: goroutines the
+		// code under test parked for good (a background task waiting for a timer that will not fire, a worker
+		// nobody stopped). That is a leak, which no property is about, not a blocked call: the execution is
+		// complete; the remaining threads are torn down and counted.
+		if len(x.threads) > 0 && x.threads[0].done {
+			for _, u := range x.threads {
+				if !u.done {
+					x.Leaked++
+				}
+			}
+			x.killed = true
+			if t == nil {
+				return
+			}
+			runtime.Goexit()
 		}
 		if t == nil {
 			x.killed = true
